@@ -10,6 +10,14 @@ import sys
 HERE = os.path.dirname(os.path.dirname(os.path.abspath(__file__)))
 sys.path.insert(0, HERE)
 os.environ.setdefault('GLUE_REPO', '/repo')
+try:
+    import z3  # noqa: F401  (the contract modules need it; the tables would silently come out empty without)
+except ImportError:
+    venv_py = os.path.join(HERE, '.venv', 'bin', 'python')
+    if os.path.exists(venv_py) and os.path.realpath(sys.executable) != os.path.realpath(venv_py) and not os.environ.get('GEN_DESIGN_REEXEC'):
+        os.environ['GEN_DESIGN_REEXEC'] = '1'
+        os.execv(venv_py, [venv_py] + sys.argv)
+    raise SystemExit("gen_design.py needs the check venv (z3): run ./setup.sh, then .venv/bin/python tools/gen_design.py")
 
 PROPS = {json.loads(l)['id']: json.loads(l) for l in open(os.path.join(HERE, 'properties.jsonl'))}
 NOTES = json.load(open(os.path.join(HERE, 'tools', 'design_notes.json')))
